@@ -86,8 +86,8 @@ def authentic(kind, rng, rid, ctxd, alg, dev):
         body = ksi.tlv(0x01, ksi.uint(rid)) + ksi.tlv(0x04, b"") + ksi.tlv(0x12, ksi.uint(pub + 50)) + cal
         raw = wire.envelope(0x0321, (0x0300, 0x0302), [(0x02, body)], a, alg=alg)
     else:
-        t2, t1 = (0x0221, (0x0200, 0x0202)) if kind == "aggrconf" else (0x0321, (0x0300, 0x0302))
-        inner = ksi.parse_tlvs(conf_payload(kind))[0][3]
+        t2, t1 = (0x0221, (0x0200, 0x0202)) if kind in ("aggrconf", "aggrpush") else (0x0321, (0x0300, 0x0302))
+        inner = ksi.parse_tlvs(conf_payload("aggrconf" if kind == "aggrpush" else kind))[0][3]
         raw = wire.envelope(t2, t1, [(0x04, inner)], a, alg=alg)
     regions = {}
     if a["ver"] == "v2" and dev["d"] in ("none", "flip"):
@@ -241,6 +241,19 @@ def async_finish(s, replies):
     return (f2.get("state") == "3" and f2.get("sig") == "0"), line
 
 
+def push_finish(s, replies):
+    """a pushed configuration: delivered iff some run hands a configuration (its values) to the caller"""
+    for ep, reply in replies.items():
+        s.cmd("EP %d" % ep); s.cmd("S2C " + reply.hex())
+    s.cmd("EP 0")
+    lines = []
+    for _ in range(3):
+        out = s.cmd("RUN")
+        lines += [l for l in out if l.startswith("R run")]
+    got = [l for l in lines if " maxlevel=17" in l or " maxreq=1024" in l]
+    return bool(got), (got or lines)[-1]
+
+
 def judge(chk, c, delivered, line, what, payload):
     if delivered and not c["delivered"]:
         chk.violation("delivered:%s:%s:%s" % (c["dev"]["d"] + ("-" + c["dev"]["r"] if c["dev"]["d"] == "flip" else ""), c["kind"], c["transport"]),
@@ -346,7 +359,7 @@ def run(chk, tier, seed):
                         if stop:
                             return
                         label = lab[0]
-                        delivered, line = async_finish(s, replies)
+                        delivered, line = (push_finish if kind == "aggrpush" else async_finish)(s, replies)
                     n += 1
                     judge(chk, c, delivered, line, label, dict(case=c, variant=label, log=s.log[-14:]))
             if dev["d"] == "flip":
